@@ -284,7 +284,8 @@ def trace_job(arg):
     rnd = random.Random(seed)
     out = dict(traces=[], violations=[], workbooks=0, evaluates=0, bound_checks=0,
                early_stops=0, agree_checks=0, sample=None)
-    tols = [2.0 ** -4, 2.0 ** -8, 2.0 ** -12]
+    # 0.0: an explicit tolerance of zero (stop only when nothing changes at all)
+    tols = [2.0 ** -4, 2.0 ** -8, 2.0 ** -12, 0.0]
     for _ in range(n_wb):
         if kind == 'cyclic':
             wb, q, fcells = IT.random_cyclic(rnd)
@@ -350,7 +351,8 @@ def trace_job(arg):
                     if c in fcells and isinstance(val, (int, float)) and not isinstance(val, bool):
                         out['bound_checks'] += 1
                         err = abs(Fraction(val) - fp[c])
-                        if err > lim:
+                        # binary floating point: the iterates are rounded
+                        if err > lim + Fraction(1, 10 ** 12) * max(1, abs(fp[c])):
                             out['violations'].append((
                                 f'{c} = {val!r} after an early stop (pass {passes} of {n_it}) is '
                                 f'{float(err):.3g} from the fixed point {float(fp[c]):.6g}: more than '
